@@ -72,7 +72,13 @@ def _restart(at, P, parset, progset, instructions, res, year, medium, scratch, s
             progset = P2.progsets[progset.name]
     elif medium == "spreadsheet":
         ss = ps.calibration_spreadsheet()
-        fresh = at.ParameterSet(P.framework, P.data, "fresh")
+        # loaded into a parset that has the same visible data (incl. scenario overwrites) but neither the y-factors' origin nor a saved state
+        fresh = parset.copy("fresh")
+        fresh.initialization = None
+        for par in fresh.all_pars():
+            par.meta_y_factor = 1.0
+            for k in par.y_factor:
+                par.y_factor[k] = 1.0
         fresh.load_calibration(ss)
         ps = fresh
     old_start = P2.settings.sim_start
@@ -107,6 +113,20 @@ def _near_discontinuity(t, parset, progset, instructions, eps=1e-6):
         if np.min(np.abs(t - x)) < eps:
             return True
     return False
+
+
+def fw_pars_with_values(P, parset):
+    out = []
+    for name in P.framework.pars.index:
+        if name not in parset.pars or not parset.pars[name].ts:
+            continue
+        has_fcn = isinstance(P.framework.pars.at[name, "function"], str)
+        has_data = all(ts.has_data for ts in parset.pars[name].ts.values())
+        if P.framework.pars.at[name, "timed"] == "y":
+            continue
+        if has_data or has_fcn:
+            out.append(name)
+    return out
 
 
 def run(ch, idx, tier):
@@ -167,7 +187,32 @@ def run(ch, idx, tier):
             for pop in p.y_factor:
                 p.y_factor[pop] = ch.uniform("yval", 0.5, 1.5)
 
-    config = {"project": name, "dt": dt, "nsteps": nsteps, "programs": use_progs, "instructions": None if instructions is None else {"start": instructions.start_year, "stop": instructions.stop_year, "alloc": sorted(instructions.alloc.keys())}}
+    scen_desc = None
+    if ch.flip("parameter_scenario", 0.3):
+        # a parameter scenario (overwrite from a year inside the horizon; function parameters get a skip_function window
+        # that straddles some of the crash points)
+        cands = [p for p in fw_pars_with_values(P, parset)]
+        if cands:
+            pname = cands[ch.choose("scen.par", len(cands))]
+            pops_ = list(parset.pars[pname].ts.keys())
+            pop_ = pops_[ch.choose("scen.pop", len(pops_))]
+            tgrid = P.settings.tvec
+            t0 = float(tgrid[1 + ch.choose("scen.t0", max(1, len(tgrid) - 3))])
+            t1 = t0 + dt * (1 + ch.choose("scen.len", 8))
+            try:
+                v0 = float(P.run_sim(parset, progset, instructions).get_variable(pname, pop_)[0].vals[0])
+                if not np.isfinite(v0):
+                    v0 = 0.1
+                scen = at.ParameterScenario(name="scen", scenario_values={pname: {pop_: {"t": [t0, t1], "y": [v0 * ch.uniform("scen.y0", 0.5, 1.5), v0 * ch.uniform("scen.y1", 0.5, 1.5)]}}}, interpolation=["linear", "previous"][ch.choose("scen.interp", 2)])
+                parset = scen.get_parset(parset, P)
+                scen_desc = {"par": pname, "pop": pop_, "t": [t0, t1], "function": bool(P.framework.pars.at[pname, "function"] if not isinstance(P.framework.pars.at[pname, "function"], float) else False)}
+                bump("probe:parameter_scenario")
+                if scen_desc["function"]:
+                    bump("probe:skip_function_window")
+            except Exception:
+                scen_desc = None
+
+    config = {"project": name, "dt": dt, "nsteps": nsteps, "programs": use_progs, "scenario": scen_desc, "instructions": None if instructions is None else {"start": instructions.start_year, "stop": instructions.stop_year, "alloc": sorted(instructions.alloc.keys())}}
     scratch = tempfile.mkdtemp(prefix="atomsim_c10_", dir=os.environ.get("VERIF_SCRATCH"))
     try:
         try:
